@@ -1,37 +1,70 @@
-//! C14: replay model schedules on the real `TaskTracker`/`Task` (via the cfg hooks of
-//! `p2panda::verif_c14`) and stress the real `Pipeline::process`.
+//! C14: replay model schedules on the real `Pipeline::process` / `TaskTracker` / `Task` (via the
+//! cfg hooks of `p2panda::verif_c14`), stress the real `Pipeline`, and contend on the result lock
+//! of a task from several OS threads.
 //!
 //! `sched <id0> <id1> ... | <pick> <pick> ...`
-//!   n submitters (submitter i submits task id `id_i` and its event produces the result `i`) and
-//!   one completer (the pipeline loop: pop an event, `mark_as_done(id, result)`). The futures are
-//!   polled by hand, one poll per pick (`pick < n`: that submitter, `pick == n`: the completer);
-//!   the cfg-gated schedule points inside tasks.rs make every poll stop at the next point, so a
-//!   pick is one step of the transition system of coq/Model/Tasks.v. After the explicit picks the
-//!   actors are polled round robin until a whole round makes no progress.
-//!   Result: `<tokens of the picks> / <tokens of the drain> / OK|DEADLOCK` with tokens
-//!   T tracked, Q queued, E Notified created+enabled, C checked (no result yet), W woken,
-//!   D<r> returned r, P1 event popped, P2 entry removed, P3 result set, P0 notified+unlocked,
-//!   `-` the picked actor cannot move.
+//!   n submitters and one completer over ONE real `TaskTracker`. Submitter i is the REAL
+//!   `Pipeline::process(event_i)` future (a detached `Pipeline` handle: same struct, same
+//!   function, no processing thread; the harness owns the receiving end of the channel). Its
+//!   event is an operation chosen by `id_i` (equal ids = the same operation submitted
+//!   concurrently) tagged with `i`, and "the result produced for the event of submitter j" is
+//!   that event itself. The completer is the pipeline loop: take the next event that was
+//!   really sent, `TaskTracker::mark_as_done(event.hash(), event)`.
+//!   The futures are polled by hand, one poll per pick (`pick < n`: that submitter, `pick == n`:
+//!   the completer). `process` parks at every await it makes, in whatever order it makes them:
+//!   at the entry of `TaskTracker::track` and of `Task::ready` and inside `Task::ready` /
+//!   `mark_as_done` through the cfg-gated schedule points of tasks.rs, and inside
+//!   `pipeline_tx.send(..)` because the harness keeps the (capacity 1) channel of that
+//!   submitter full with a permit until the submitter is picked again. So a pick is one step of
+//!   the transition system of coq/Model/Tasks.v, and the tokens tell in which order the real
+//!   function tracked and sent. After the explicit picks the actors are polled round robin
+//!   until a whole round makes no progress.
+//!   Result: `<where each submitter parks first> / <tokens of the picks> / <tokens of the drain>
+//!   / OK|DEADLOCK` with tokens
+//!     Kt parked before `track`, T tracked (was at Kt, now parked in `send`), Q event sent (it
+//!     arrived in the channel during this poll; now parked at the entry of `Task::ready`),
+//!     E Notified created+enabled, C checked (no result yet), W woken, D<r> returned the event
+//!     of submitter r, P1 event taken, P2 entry removed, P3 result set, P0 notified+unlocked,
+//!     `-` the picked actor cannot move;
+//!   anything else is spelled out (`Ks` parked in `send` without having tracked, `+s` an event
+//!   arrived, `Kr` at the entry of `ready` without a send, `?` pending without a known reason).
 //!
 //! `stress <submissions> <distinct operations> <worker threads>`
 //!   the real `Pipeline` (own thread, SQLite in memory) on a multi-thread runtime; submissions
 //!   of the same operation run concurrently. Result: `STRESS returned=<k> own=<k>`.
+//!
+//! `paused <submissions> <pause ms>`
+//!   the real `Pipeline` with its own thread; the submitters (all the same operation) are
+//!   polled by hand and the harness sleeps `pause ms` at every schedule point a submitter
+//!   stops at, which gives the pipeline thread time to finish the operation in every window
+//!   between two steps of `process`; the run gives up after 20 s without a submitter moving.
+//!   Result: `PAUSED returned=<k> own=<k>`.
+//!
+//! `mt <mode> <clone ms> <writer delay ms> | <start offset ms of waiter 0> <of waiter 1> ...`
+//!   contention on the result mutex of ONE task: k waiters call `Task::ready()` on k OS threads
+//!   (own current-thread runtime each), the result type has a slow `Clone` (sleeps `clone ms`
+//!   while the waiter holds the mutex). mode 0: the task is completed before the first waiter
+//!   starts; mode 1: `TaskTracker::mark_as_done` runs on its own thread after `writer delay`.
+//!   Every waiter must return the stored value; the run gives up when nothing has moved (no
+//!   clone started or finished, nobody returned) for 5 s. Result: `MT returned=<k> own=<k>`.
 use std::cell::RefCell;
 use std::collections::VecDeque;
 use std::future::Future;
 use std::pin::Pin;
 use std::rc::Rc;
+use std::sync::Arc;
+use std::sync::atomic::{AtomicU64, Ordering};
 use std::task::{Context, Poll, Waker};
-use std::time::Duration;
+use std::time::{Duration, Instant};
 
 use p2panda::verif_c14 as hook;
 use p2panda_core::Topic;
 use p2panda_core::test_utils::TestLog;
 use p2panda_core::traits::Digest;
 use p2panda_store::SqliteStore;
+use tokio::sync::mpsc;
 
-type Tracker = hook::TaskTracker<u64, u64>;
-type Queue = Rc<RefCell<VecDeque<(u64, u64)>>>;
+type Queue = Rc<RefCell<VecDeque<hook::PipelineEvent>>>;
 
 /// Pending exactly once, without naming a schedule point ("nothing to do right now").
 struct Idle(bool);
@@ -48,113 +81,218 @@ impl Future for Idle {
     }
 }
 
-/// What `Pipeline::process` does: track, send, wait until ready.
-async fn submitter(tracker: Tracker, queue: Queue, id: u64, me: u64) -> u64 {
-    let task = tracker.track(id).await;
-    hook::yield_point("h_tracked").await;
-    queue.borrow_mut().push_back((id, me));
-    hook::yield_point("h_sent").await;
-    task.ready().await
+fn tag_topic(i: usize) -> Topic {
+    let mut b = [0u8; 32];
+    b[0] = 0xC1;
+    b[1] = i as u8;
+    Topic::from(b)
+}
+
+fn tag_of(event: &hook::PipelineEvent) -> u64 {
+    let b: [u8; 32] = hook::event_topic(event).into();
+    b[1] as u64
 }
 
 /// What the pipeline thread does with every processed event.
-async fn completer(tracker: Tracker, queue: Queue) -> u64 {
+async fn completer(tracker: hook::PipelineTracker, queue: Queue) {
     loop {
         let next = queue.borrow_mut().pop_front();
         match next {
             None => Idle(false).await,
-            Some((id, result)) => {
+            Some(event) => {
                 hook::yield_point("h_popped").await;
-                tracker.mark_as_done(id, result).await;
+                tracker.mark_as_done(event.hash(), event).await;
                 hook::yield_point("h_marked").await;
             }
         }
     }
 }
 
-fn token(label: &str) -> &'static str {
-    match label {
-        "h_tracked" => "T",
-        "h_sent" => "Q",
-        "task_ready_between_enable_and_check" => "E",
-        "task_ready_between_check_and_wait" => "C",
-        "task_ready_after_wait" => "W",
-        "h_popped" => "P1",
-        "tracker_mark_as_done_after_remove" => "P2",
-        "task_mark_as_done_between_set_and_notify" => "P3",
-        "h_marked" => "P0",
-        _ => "?",
-    }
+/// Where a hand-polled future is parked.
+#[derive(Clone, Copy, PartialEq, Debug)]
+enum Stop {
+    /// not polled yet
+    Fresh,
+    /// at a named schedule point
+    Point(&'static str),
+    /// inside `pipeline_tx.send` (the harness holds the only slot of the channel)
+    Send,
+    /// pending without a schedule point: waiting for the ready signal (or for a lock)
+    Wait,
 }
 
-struct Actor {
-    fut: Pin<Box<dyn Future<Output = u64>>>,
-    started: bool,
+const KT: &str = "tracker_track_enter";
+const KR: &str = "task_ready_enter";
+const PE: &str = "task_ready_between_enable_and_check";
+const PC: &str = "task_ready_between_check_and_wait";
+const PW: &str = "task_ready_after_wait";
+
+struct Sub {
+    fut: Pin<Box<dyn Future<Output = hook::PipelineEvent>>>,
+    rx: mpsc::Receiver<hook::PipelineEvent>,
+    /// the permit that keeps this submitter's channel full
+    gate: Option<mpsc::OwnedPermit<hook::PipelineEvent>>,
+    stop: Stop,
+    sent: bool,
     done: bool,
 }
 
 struct World {
-    tracker: Tracker,
-    actors: Vec<Actor>,
-    n: usize,
+    tracker: hook::PipelineTracker,
+    queue: Queue,
+    subs: Vec<Sub>,
+    pipe: Pin<Box<dyn Future<Output = ()>>>,
 }
 
 impl World {
     fn new(ids: &[u64]) -> Self {
-        let tracker = Tracker::new();
+        let tracker = hook::PipelineTracker::new();
         let queue: Queue = Rc::new(RefCell::new(VecDeque::new()));
-        let mut actors = Vec::new();
+        let log = TestLog::new();
+        let mut ops: Vec<(u64, p2panda_core::Operation<()>)> = Vec::new();
+        let mut subs = Vec::new();
         for (i, id) in ids.iter().enumerate() {
-            actors.push(Actor {
-                fut: Box::pin(submitter(tracker.clone(), queue.clone(), *id, i as u64)),
-                started: false,
+            let op = match ops.iter().find(|(k, _)| k == id) {
+                Some((_, op)) => op.clone(),
+                None => {
+                    let op = log.operation(format!("operation {id}").as_bytes(), ());
+                    ops.push((*id, op.clone()));
+                    op
+                }
+            };
+            let event = hook::new_event(op, tag_topic(i));
+            let (pipeline, tx, rx) = hook::detached_pipeline(1, tracker.clone());
+            let gate = tx.try_reserve_owned().ok();
+            subs.push(Sub {
+                fut: Box::pin(async move { pipeline.process(event).await }),
+                rx,
+                gate,
+                stop: Stop::Fresh,
+                sent: false,
                 done: false,
             });
         }
-        actors.push(Actor {
-            fut: Box::pin(completer(tracker.clone(), queue.clone())),
-            started: true,
-            done: false,
-        });
+        let pipe = Box::pin(completer(tracker.clone(), queue.clone()));
         World {
             tracker,
-            actors,
-            n: ids.len(),
+            queue,
+            subs,
+            pipe,
         }
     }
 
-    /// One pick: returns the token and whether the actor moved.
-    fn pick(&mut self, a: usize) -> String {
-        if a > self.n {
-            return "-".into();
-        }
-        let locked = self.tracker.verif_is_locked();
-        let actor = &mut self.actors[a];
-        if actor.done {
-            return "-".into();
-        }
-        // A submitter about to call `track` while the completer holds the tracker lock would
-        // queue on the lock; the model treats it as "cannot move", so it is not polled.
-        if a < self.n && !actor.started && locked {
-            return "-".into();
-        }
-        actor.started = true;
+    /// Polls submitter `a` once; returns `Some(result)` when it returned, and whether its event
+    /// arrived in the channel during this poll.
+    fn poll_sub(&mut self, a: usize) -> (Option<hook::PipelineEvent>, bool) {
+        let sub = &mut self.subs[a];
         let _ = hook::take_last_point();
         let mut cx = Context::from_waker(Waker::noop());
-        match actor.fut.as_mut().poll(&mut cx) {
-            Poll::Ready(r) => {
-                actor.done = true;
-                format!("D{r}")
+        let res = sub.fut.as_mut().poll(&mut cx);
+        let mut arrived = false;
+        while let Ok(event) = sub.rx.try_recv() {
+            arrived = true;
+            sub.sent = true;
+            self.queue.borrow_mut().push_back(event);
+        }
+        match res {
+            Poll::Ready(event) => {
+                sub.done = true;
+                (Some(event), arrived)
             }
-            Poll::Pending => match hook::take_last_point() {
-                Some(label) => token(label).to_string(),
+            Poll::Pending => {
+                sub.stop = match hook::take_last_point() {
+                    Some(label) => Stop::Point(label),
+                    None if !sub.sent && sub.gate.is_some() => Stop::Send,
+                    None => Stop::Wait,
+                };
+                (None, arrived)
+            }
+        }
+    }
+
+    /// Runs every submitter up to its first stop (nothing of `process` has happened yet).
+    fn park(&mut self) -> Vec<String> {
+        (0..self.subs.len())
+            .map(|a| {
+                let (res, arrived) = self.poll_sub(a);
+                match res {
+                    Some(event) => format!("D{}", tag_of(&event)),
+                    None => stop_name(self.subs[a].stop, arrived),
+                }
+            })
+            .collect()
+    }
+
+    fn pick(&mut self, a: usize) -> String {
+        let n = self.subs.len();
+        if a > n {
+            return "-".into();
+        }
+        if a == n {
+            let _ = hook::take_last_point();
+            let mut cx = Context::from_waker(Waker::noop());
+            let _ = self.pipe.as_mut().poll(&mut cx);
+            return match hook::take_last_point() {
+                Some("h_popped") => "P1".into(),
+                Some("tracker_mark_as_done_after_remove") => "P2".into(),
+                Some("task_mark_as_done_between_set_and_notify") => "P3".into(),
+                Some("h_marked") => "P0".into(),
+                Some(_) => "?".into(),
                 None => "-".into(),
-            },
+            };
+        }
+        if self.subs[a].done {
+            return "-".into();
+        }
+        let before = self.subs[a].stop;
+        // A submitter about to take the tracker lock while the completer holds it would queue
+        // on the lock; the model treats it as "cannot move", so it is not polled.
+        if before == Stop::Point(KT) && self.tracker.verif_is_locked() {
+            return "-".into();
+        }
+        if before == Stop::Send {
+            // let the send go through
+            self.subs[a].gate = None;
+        }
+        let (res, arrived) = self.poll_sub(a);
+        if let Some(event) = res {
+            let plus = if arrived { "+s" } else { "" };
+            return format!("D{}{}", tag_of(&event), plus);
+        }
+        let after = self.subs[a].stop;
+        match (before, arrived, after) {
+            (Stop::Point(KT), false, Stop::Send) => "T".into(),
+            (Stop::Send, true, Stop::Point(KR)) => "Q".into(),
+            (Stop::Point(KR), false, Stop::Point(PE)) => "E".into(),
+            (Stop::Point(PE), false, Stop::Point(PC)) => "C".into(),
+            (Stop::Point(PC) | Stop::Wait, false, Stop::Point(PW)) => "W".into(),
+            (Stop::Point(PC) | Stop::Wait, false, Stop::Wait) => "-".into(),
+            _ => stop_name(after, arrived),
         }
     }
 
     fn all_returned(&self) -> bool {
-        self.actors[..self.n].iter().all(|a| a.done)
+        self.subs.iter().all(|s| s.done)
+    }
+}
+
+/// Literal name of a stop (used where the run is not one of the model's steps).
+fn stop_name(stop: Stop, arrived: bool) -> String {
+    let name = match stop {
+        Stop::Fresh => "K0",
+        Stop::Point(KT) => "Kt",
+        Stop::Point(KR) => "Kr",
+        Stop::Point(PE) => "Ke",
+        Stop::Point(PC) => "Kc",
+        Stop::Point(PW) => "Kw",
+        Stop::Point(_) => "K?",
+        Stop::Send => "Ks",
+        Stop::Wait => "?",
+    };
+    if arrived {
+        format!("{name}+s")
+    } else {
+        name.to_string()
     }
 }
 
@@ -164,6 +302,7 @@ fn sched(payload: &str) -> String {
     let picks = h_common::nums(picks_s);
     hook::enable_schedule_points(true);
     let mut w = World::new(&ids);
+    let parked = w.park();
     let first: Vec<String> = picks.iter().map(|p| w.pick(*p as usize)).collect();
     let mut drain: Vec<String> = Vec::new();
     for _ in 0..(40 * (ids.len() + 1) + 10) {
@@ -176,7 +315,13 @@ fn sched(payload: &str) -> String {
     }
     let verdict = if w.all_returned() { "OK" } else { "DEADLOCK" };
     hook::enable_schedule_points(false);
-    format!("{} / {} / {}", first.join(" "), drain.join(" "), verdict)
+    format!(
+        "{} / {} / {} / {}",
+        parked.join(" "),
+        first.join(" "),
+        drain.join(" "),
+        verdict
+    )
 }
 
 fn stress(payload: &str) -> String {
@@ -223,12 +368,178 @@ fn stress(payload: &str) -> String {
     format!("STRESS returned={returned} own={own}")
 }
 
+/// The real pipeline thread against hand-polled submitters which pause at every schedule point.
+fn paused(payload: &str) -> String {
+    let v = h_common::nums(payload);
+    let (subs, pause) = (v[0] as usize, Duration::from_millis(v[1]));
+    let log = TestLog::new();
+    let topic = Topic::random();
+    let op = log.operation(b"paused", ());
+    let hash = op.hash;
+    let rt = tokio::runtime::Builder::new_current_thread()
+        .enable_all()
+        .build()
+        .expect("runtime");
+    let (returned, own) = rt.block_on(async move {
+        let store = SqliteStore::temporary().await;
+        let pipeline = hook::new_pipeline(store);
+        hook::enable_schedule_points(true);
+        let mut futs: Vec<Option<Pin<Box<dyn Future<Output = hook::PipelineEvent>>>>> = (0..subs)
+            .map(|_| {
+                let pipeline = pipeline.clone();
+                let event = hook::new_event(op.clone(), topic);
+                let f: Pin<Box<dyn Future<Output = hook::PipelineEvent>>> =
+                    Box::pin(async move { pipeline.process(event).await });
+                Some(f)
+            })
+            .collect();
+        let (mut returned, mut own) = (0u64, 0u64);
+        let mut last_progress = Instant::now();
+        let mut cx = Context::from_waker(Waker::noop());
+        while returned < subs as u64 && last_progress.elapsed() < Duration::from_secs(20) {
+            for slot in futs.iter_mut() {
+                let Some(fut) = slot.as_mut() else { continue };
+                let _ = hook::take_last_point();
+                match fut.as_mut().poll(&mut cx) {
+                    Poll::Ready(result) => {
+                        returned += 1;
+                        own += (result.hash() == hash) as u64;
+                        *slot = None;
+                        last_progress = Instant::now();
+                    }
+                    Poll::Pending => {
+                        if hook::take_last_point().is_some() {
+                            // a window between two steps of `process`: let the pipeline thread run
+                            last_progress = Instant::now();
+                            tokio::time::sleep(pause).await;
+                        }
+                    }
+                }
+            }
+            tokio::time::sleep(Duration::from_millis(1)).await;
+        }
+        hook::enable_schedule_points(false);
+        (returned, own)
+    });
+    rt.shutdown_background();
+    format!("PAUSED returned={returned} own={own}")
+}
+
+/// A task result whose `Clone` is slow (the waiter holds the result mutex meanwhile).
+struct Slow {
+    value: u64,
+    clone_ms: u64,
+    progress: Arc<AtomicU64>,
+}
+
+impl Clone for Slow {
+    fn clone(&self) -> Self {
+        self.progress.fetch_add(1, Ordering::SeqCst);
+        std::thread::sleep(Duration::from_millis(self.clone_ms));
+        self.progress.fetch_add(1, Ordering::SeqCst);
+        Slow {
+            value: self.value,
+            clone_ms: self.clone_ms,
+            progress: self.progress.clone(),
+        }
+    }
+}
+
+fn mt(payload: &str) -> String {
+    let (head, offs) = payload.split_once('|').unwrap_or((payload, ""));
+    let head = h_common::nums(head);
+    let (mode, clone_ms, writer_delay) = (head[0], head[1], head[2]);
+    let offsets = h_common::nums(offs);
+    let k = offsets.len();
+    const VALUE: u64 = 7;
+    const ID: u64 = 1;
+    hook::enable_schedule_points(false);
+    let progress = Arc::new(AtomicU64::new(0));
+    let tracker = hook::TaskTracker::<Slow, u64>::new();
+    let rt = tokio::runtime::Builder::new_current_thread()
+        .enable_all()
+        .build()
+        .expect("runtime");
+    // every waiter observes the same task instance
+    let tasks: Vec<_> = rt.block_on(async {
+        let mut tasks = Vec::new();
+        for _ in 0..k {
+            tasks.push(tracker.track(ID).await);
+        }
+        tasks
+    });
+    let result = Slow {
+        value: VALUE,
+        clone_ms,
+        progress: progress.clone(),
+    };
+    let mut writer = None;
+    if mode == 0 {
+        rt.block_on(tracker.mark_as_done(ID, result));
+    } else {
+        let tracker = tracker.clone();
+        writer = Some(std::thread::spawn(move || {
+            std::thread::sleep(Duration::from_millis(writer_delay));
+            let rt = tokio::runtime::Builder::new_current_thread()
+                .enable_all()
+                .build()
+                .expect("runtime");
+            rt.block_on(tracker.mark_as_done(ID, result));
+        }));
+    }
+    let (tx, rx) = std::sync::mpsc::channel::<u64>();
+    for (task, off) in tasks.into_iter().zip(offsets.iter().copied()) {
+        let tx = tx.clone();
+        let progress = progress.clone();
+        // a waiter that never returns stays behind on its (detached) thread
+        std::thread::spawn(move || {
+            std::thread::sleep(Duration::from_millis(off));
+            let rt = tokio::runtime::Builder::new_current_thread()
+                .enable_all()
+                .build()
+                .expect("runtime");
+            let got = rt.block_on(task.ready());
+            progress.fetch_add(1, Ordering::SeqCst);
+            let _ = tx.send(got.value);
+        });
+    }
+    drop(tx);
+    let (mut returned, mut own) = (0u64, 0u64);
+    let mut seen = progress.load(Ordering::SeqCst);
+    let mut last_progress = Instant::now();
+    while returned < k as u64 {
+        match rx.recv_timeout(Duration::from_millis(20)) {
+            Ok(value) => {
+                returned += 1;
+                own += (value == VALUE) as u64;
+                last_progress = Instant::now();
+            }
+            Err(std::sync::mpsc::RecvTimeoutError::Timeout) => {
+                let now = progress.load(Ordering::SeqCst);
+                if now != seen {
+                    seen = now;
+                    last_progress = Instant::now();
+                } else if last_progress.elapsed() > Duration::from_secs(5) {
+                    break;
+                }
+            }
+            Err(std::sync::mpsc::RecvTimeoutError::Disconnected) => break,
+        }
+    }
+    if let Some(w) = writer {
+        let _ = w.join();
+    }
+    format!("MT returned={returned} own={own}")
+}
+
 pub fn main() {
     h_common::run_cases(|payload| {
         let (kind, rest) = payload.split_once(' ').unwrap_or((payload, ""));
         match kind {
             "sched" => sched(rest),
             "stress" => stress(rest),
+            "paused" => paused(rest),
+            "mt" => mt(rest),
             other => format!("UNKNOWN {other}"),
         }
     });
